@@ -84,7 +84,7 @@ class Env(object):
         if self.checking and len(self.seen) > n0:
             m = self.seen[-1]
             p = self.top()
-            ok = (m["task_uuid"] == p.task_uuid and m["task_level"][:-1] == p._task_level.as_list()) if p is not None else m["task_level"] == [1]
+            ok = (m["task_uuid"] == p.task_uuid and m["task_level"][:-1] == world.action_level(p)) if p is not None else m["task_level"] == [1]
             if not ok:
                 self.problems.append(("generator-message-wrong-parent", {"gen": self.name, "tag": tag, "level": m["task_level"], "parent": _n(p)}))
 
@@ -96,9 +96,9 @@ class Env(object):
                 parent = env.top()
                 s.a = start_action(action_type=typ)
                 if env.checking:
-                    ok = (s.a.task_uuid == parent.task_uuid and s.a._task_level.as_list()[:-1] == parent._task_level.as_list()) if parent is not None else s.a._task_level.as_list() == []
+                    ok = (s.a.task_uuid == parent.task_uuid and world.action_level(s.a)[:-1] == world.action_level(parent)) if parent is not None else world.action_level(s.a) == []
                     if not ok:
-                        env.problems.append(("generator-action-wrong-parent", {"gen": env.name, "level": s.a._task_level.as_list(), "parent": _n(parent)}))
+                        env.problems.append(("generator-action-wrong-parent", {"gen": env.name, "level": world.action_level(s.a), "parent": _n(parent)}))
                 s.a.__enter__()
                 env.stack.append(s.a)
                 env.probe("after-enter")
@@ -116,7 +116,7 @@ class Env(object):
 def _n(a):
     if a is None or a == "UNSET":
         return None
-    return "%s@%s" % (a._identification.get("action_type"), a._task_level.as_list())
+    return "%s@%s" % (world.action_type_of(a), world.action_level(a))
 
 
 # --- bodies: each takes env and returns a generator -------------------------
